@@ -20,7 +20,11 @@ type tcpSession struct {
 	ln net.Listener
 }
 
+// tcpConnTimeout: the ConnectionTimeout of the sessions created next
+var tcpConnTimeout = 2 * time.Second
+
 func newTCPSession(user, password, key string) (ts *tcpSession, err error) {
+	connTimeout := tcpConnTimeout
 	defer func() {
 		if r := recover(); r != nil {
 			ts, err = nil, fmt.Errorf("NewClient panics")
@@ -33,7 +37,7 @@ func newTCPSession(user, password, key string) (ts *tcpSession, err error) {
 	host, port, _ := net.SplitHostPort(ln.Addr().String())
 	pn, _ := strconv.Atoi(port)
 	cl, err := rscp.NewClient(rscp.ClientConfig{Address: host, Port: uint16(pn), Username: user, Password: password, Key: key,
-		ConnectionTimeout: 2 * time.Second, SendTimeout: 2 * time.Second, ReceiveTimeout: 2 * time.Second, HeartbeatInterval: time.Second + 1})
+		ConnectionTimeout: connTimeout, SendTimeout: 2 * time.Second, ReceiveTimeout: 2 * time.Second, HeartbeatInterval: time.Second + 1})
 	if err != nil {
 		ln.Close()
 		return nil, err
@@ -221,6 +225,37 @@ func init() {
 				sc.calls = append(sc.calls, healthy(dead+2), healthy(dead+3))
 				scs = append(scs, sc)
 			}
+			// (4) a request that the client refuses (its items fit one by one but not together) between two good ones, on one
+			// connection: nothing of it reaches the device and the next exchange works — the cipher states stay in step
+			for j := 0; j < 2; j++ {
+				sc := &scenario{name: "refused-then-valid", fails: map[int]bool{1: true}}
+				big := strings.Repeat("a", 40000)
+				for k := 0; k < 3; k++ {
+					c := healthy(k)
+					if k == 1 {
+						c.reqs = []rscp.Message{{Tag: 0x01000001, DataType: rscp.CString, Value: big}, {Tag: 0x01000002, DataType: rscp.CString, Value: big}}
+						if j == 1 {
+							c.reqs = []rscp.Message{{Tag: rscp.INFO_REQ_UTC_TIME, DataType: rscp.UChar8, Value: "wrong"}}
+						}
+						c.user = frameReply([]rscp.Message{{Tag: 0x00800001, DataType: rscp.UChar8, Value: uint8(1)}})
+					}
+					sc.calls = append(sc.calls, c)
+				}
+				scs = append(scs, sc)
+			}
+			// (5) a reply damaged in transit once (one bit of the frame's time stamp, checksum untouched): the call fails
+			// with a checksum error, its request reached the device once, the next call works on a new connection
+			for j := 0; j < 2; j++ {
+				sc := &scenario{name: "reply-damaged-once", fails: map[int]bool{1: true}}
+				for k := 0; k < 3; k++ {
+					c := healthy(k)
+					if k == 1 {
+						c.user = replySpec{behaviour{kind: "badCrcOnce", items: encItems(replyFor(c.reqs, k)), once: new(int)}, "P invalidCrc 0"}
+					}
+					sc.calls = append(sc.calls, c)
+				}
+				scs = append(scs, sc)
+			}
 			var wg sync.WaitGroup
 			for j, sc := range scs {
 				wg.Add(1)
@@ -240,7 +275,10 @@ func init() {
 						r := ts.call(c)
 						ops = append(ops, c.op())
 						res = append(res, r)
-						nonce := hexOf([]byte(c.reqs[0].Value.(string)))
+						nonce := "no-nonce"
+						if str, ok := c.reqs[0].Value.(string); ok && len(str) < 100 {
+							nonce = hexOf([]byte(str))
+						}
 						seen := 0
 						if at := strings.Index(r, " @ "); at >= 0 {
 							for _, ev := range strings.Split(r[at+3:], " , ") {
@@ -253,11 +291,20 @@ func init() {
 							addVerdict(&prop, "FAIL C08 a request reached the peer more than once: "+trunc(r, 200))
 						}
 						if sc.fails[k] && strings.HasPrefix(r, "ok") {
-							addVerdict(&prop, "FAIL C08 a call whose request was never answered returns success: "+trunc(r, 120))
+							addVerdict(&prop, "FAIL C08 a call that cannot succeed (never answered / refused / damaged reply) returns success: "+trunc(r, 120))
+							if c.user.beh.kind == "badCrcOnce" {
+								addVerdict(&prop, "FAIL C04 a reply whose checksum does not match is not reported as an error: "+trunc(r, 120))
+							}
+						}
+						if sc.name == "refused-then-valid" && k == 1 && strings.Contains(r, "sent ") {
+							addVerdict(&prop, "FAIL C05 a refused request reached the wire: "+trunc(r, 120))
 						}
 						if !sc.fails[k] {
 							if want := "ok " + msgsString(replyFor(c.reqs, k)); !strings.HasPrefix(r, want+" @") {
 								addVerdict(&prop, fmt.Sprintf("FAIL C08 no recovery: call %d of scenario %s against a healthy peer gives %s", k, sc.name, trunc(r, 120)))
+								if strings.Contains(r, "undecodable") || strings.HasPrefix(r, "err invalid") {
+									addVerdict(&prop, "FAIL C06 client and peer no longer understand each other on the connection: "+trunc(r, 100))
+								}
 							}
 						}
 					}
